@@ -36,9 +36,10 @@ MC_INPUTS = {"ent": ["valid", "valid2", "syntax", "unknown"], "imp": ["valid", "
 # clause -> invariant it must break in the (M) pool (the module is not vacuous)
 DEV_BREAKS = {"NestedLoadFinalizesOuterUnlessCached": "OutcomeIsFresh",
               "ImportedParsersNotRestoredOnFailure": "SharedQuiescent"}
-SEEDED_BREAKS = {"NoClone": ("OutcomeIsFresh", "SharedQuiescent"), "KeepInstances": ("OutcomeIsFresh", "SharedQuiescent"),
-                 "KeepCrossrefs": ("SharedQuiescent",), "NoRestoreOnFailure": ("SharedQuiescent",),
-                 "NoCacheClear": ("OutcomeIsFresh", "SharedQuiescent")}
+# seeded breakage -> invariant it must break; for "OutcomeIsFresh" the configuration that checks only that
+# invariant is used (SharedQuiescent, the inductive reason, would otherwise be reported first)
+SEEDED_BREAKS = {"NoClone": "OutcomeIsFresh", "KeepInstances": "OutcomeIsFresh", "NoCacheClear": "OutcomeIsFresh",
+                 "KeepCrossrefs": "SharedQuiescent", "NoRestoreOnFailure": "SharedQuiescent"}
 SLOTS = 3
 
 
@@ -111,26 +112,27 @@ def _write(work, name, doc):
 
 
 # ------------------------------------------------------------------ (M)
-def model_check(work, fresh, freshmm, dev=(), brk=(), tag="mc"):
+def model_check(work, fresh, freshmm, dev=(), brk=(), tag="mc", cfg="MC_History.cfg"):
     doc = pool_doc(fresh, freshmm, MC_CFGS, MC_INPUTS, slots=2, maxops=5, dev=dev, brk=brk)
     path = _write(work, f"pool_{tag}.json", doc)
-    return tlc.model_check("MC_History", cfg="MC_History.cfg", env={"VT_POOL": path}, timeout=1800)
+    return tlc.model_check("MC_History", cfg=cfg, env={"VT_POOL": path}, timeout=1800)
 
 
 def module_sensitivity(work, fresh, freshmm, clauses_dev, clauses_brk):
     """Each clause switched on must make TLC report one of the named invariants violated."""
-    jobs = [("dev", d, (v,)) for d, v in clauses_dev.items()] + [("brk", b, v) for b, v in clauses_brk.items()]
+    jobs = [("dev", d, v) for d, v in clauses_dev.items()] + [("brk", b, v) for b, v in clauses_brk.items()]
 
     def one(job):
         kind, name, want = job
         r = model_check(work, fresh, freshmm, dev=[name] if kind == "dev" else [], brk=[name] if kind == "brk" else [],
-                        tag=f"{kind}_{name}")
+                        tag=f"{kind}_{name}",
+                        cfg="MC_History_Outcome.cfg" if want == "OutcomeIsFresh" else "MC_History.cfg")
         return name, r.violated, want
 
-    with ThreadPoolExecutor(max_workers=4) as ex:
+    with ThreadPoolExecutor(max_workers=max(1, tlc.NCPU // 4)) as ex:
         out = list(ex.map(one, jobs))
     for name, violated, want in out:
-        if violated not in want:
+        if violated != want:
             raise tlc.MachineryError(f"History.tla with clause {name} on: expected a violation of {want}, TLC reports "
                                      f"{violated!r} -- the module would be vacuous for this clause")
     return {name: violated for name, violated, _ in out}
@@ -313,6 +315,9 @@ def _shrink(ex, work, events, pool_dev0, pool_all, rounds=12):
         return True
 
     best, best_ev = ops, events
+    _, g0 = validate(work, [events], pool_all or pool_dev0, tag="shr0")     # cut after the call that is not a step
+    if g0[1]["reached"] < g0[1]["len"]:
+        best, best_ev = ops[:g0[1]["reached"] + 1], events[:g0[1]["reached"] + 1]
     for _ in range(rounds):
         cands = [best[:k] + best[k + 1:] for k in range(len(best))]
         cands = [c for c in cands if c and valid(c)]
@@ -367,6 +372,14 @@ def run(rep):
     findings = common.open_findings(PID)
     devs = {f["deviation"]: f["id"] for f in findings}
     work = tlc.scratch("vt-c16-")
+    import time
+    t0 = [time.time()]
+    phases = rep.extra.setdefault("phase_wall_s", {})
+
+    def lap(name):
+        phases[name] = round(time.time() - t0[0], 1)
+        t0[0] = time.time()
+
     try:
         H.write_pool(work)
         # ---- Fresh
@@ -376,6 +389,7 @@ def run(rep):
             if common.canon([fresh, freshmm]) != common.canon([fresh2, freshmm2]):
                 raise tlc.MachineryError("the Fresh table is not reproducible (two rounds of new interpreters differ)")
         rep.bounds["fresh_runs"] = nfresh
+        lap("fresh")
         kinds = {}
         for c in fresh:
             for i in fresh[c]:
@@ -393,6 +407,7 @@ def run(rep):
         rep.bounds["mc"] = dict(cfgs=MC_CFGS, inputs=MC_INPUTS, slots=2, max_calls=5)
         sens = module_sensitivity(work, fresh, freshmm, DEV_BREAKS, {} if quick else SEEDED_BREAKS)
         rep.extra["module_sensitivity"] = sens
+        lap("model_checking")
 
         # ---- (S->I) histories from TLC, executed and compared call by call
         inputs_all = {g: list(H.INPUTS[g]) for g in H.GRAMMARS}
@@ -403,6 +418,7 @@ def run(rep):
         num, depth = (100, 10) if quick else (2000, 12)
         rs, sims = simulate(work, pool0, num, depth, rep.seed)
         rep.add_mc("MC_History_Sim", rs, ["(history generation: -simulate)"])
+        lap("simulation")
         ex = H.Executor(work, slots=SLOTS)
         traces, meta = [], []
         direct_mismatch = {}
@@ -426,8 +442,10 @@ def run(rep):
                                        scripted=len(meta) - len(sims) - nr, random=nr, random_length=ln,
                                        calls=sum(len(t) for t in traces))
 
+        lap("execution")
         # ---- (I->S) TLC validates every executed history
         rv, got = validate(work, traces, pool0)
+        lap("trace_validation")
         rep.add_mc("TraceHistory", rv, ["TraceNext consumes every event"])
         rejected = [t for t in sorted(got) if got[t]["reached"] < got[t]["len"]]
         for t in sorted(got):
@@ -470,6 +488,7 @@ def run(rep):
                           f"{_state_brief(e['state'])}; History.tla (Fresh table) prescribes {exp.get('res')} with "
                           f"{_state_brief(exp.get('state'))}")
         rep.exhaustive = False
+        lap("verdicts")
     finally:
         shutil.rmtree(work, ignore_errors=True)
 
@@ -522,6 +541,22 @@ def replay(path):
                 break
         print("history reached", got[1]["reached"], "of", got[1]["len"])
         return 0 if got[1]["reached"] == got[1]["len"] else 1
+    finally:
+        shutil.rmtree(work, ignore_errors=True)
+
+
+def selftest():
+    """Rule 6 for the module: every deviation clause and every seeded breakage switched on makes
+    TLC report the corresponding invariant violated on the (M) pool."""
+    work = tlc.scratch("vt-c16s-")
+    try:
+        H.write_pool(work)
+        cfgs = sorted(set(MC_CFGS) | {"ent.plain"})
+        fresh, freshmm, _, _ = build_fresh(work, cfgs, lambda c: MC_INPUTS[c.split(".")[0]])
+        sens = module_sensitivity(work, fresh, freshmm, DEV_BREAKS, SEEDED_BREAKS)
+        for k, v in sens.items():
+            print(f"clause {k}: TLC reports {v} violated")
+        return 0
     finally:
         shutil.rmtree(work, ignore_errors=True)
 
